@@ -29,6 +29,13 @@ def gen_iri_graph(rng):
         n = ('I', rng.choice(nss) + rng.choice(["it", "item", "x", "a/b", "q-"]) + str(rng.randint(0, 30)))
         if n not in nodes:
             nodes.append(n)
+    # an instance IRI that is a proper prefix of other instance IRIs (a document and its versions / fragments): the common-prefix fold
+    # must shrink to the short one whatever the order
+    if rng.random() < 0.3:
+        basis = rng.choice(nodes)[1]
+        for ext in rng.sample(["/v1", "/v2", "#frag", "0", ":x"], rng.randint(1, 3)):
+            if ('I', basis + ext) not in nodes:
+                nodes.append(('I', basis + ext))
     for n in nodes:
         for c in rng.sample(range(ncls), rng.randint(1, ncls)):
             g.append((n, RDF_TYPE, I('C%d' % c)))
